@@ -227,7 +227,16 @@ def process_function(res, rep, contract, repo, findings, opts):
         # nothing reproduced natively
         r, spec, verdict, path = tried[-1]
         if all(t[0].get('weak') for t in tried):
-            # the only counter-models came from the query WITHOUT the lemma axioms: not a refutation
+            # the only counter-models came from the query WITHOUT the lemma axioms: not a refutation.  Second opinion on the full
+            # queries with a large budget; when all of them turn out unsat (and there was no other candidate) the obligation is proved
+            from . import solve as S
+            allw = [x for x in rs if x.get('weak')]
+            if len(allw) == len(rs) and all(x.get('smt2') for x in allw):
+                verdicts = [S.strong_resolve(x['smt2'][0], x['smt2'][1], opts.get('z3_ms', 10000), opts.get('cvc5_ms', 10000)) for x in allw]
+                if all(v == 'unsat' for v in verdicts):
+                    res.discharged += 1
+                    res.extra.setdefault('weak_candidates_resolved', []).append({'obligation': name, 'queries': len(allw)})
+                    continue
             res.undecided.append({'obligation': name, 'why': 'candidate counterexample (lemma axioms dropped) did not replay; full query unknown'})
             continue
         res.violations.append({'obligation': name, 'replay': path, 'confirmed': False,
